@@ -31,6 +31,7 @@ import (
 	"net"
 	"sort"
 	"strings"
+	"sync"
 	"time"
 
 	zasn1 "github.com/zmap/zcrypto/encoding/asn1"
@@ -55,6 +56,9 @@ var kinds = []keyKind{
 	{"P-256", "p256", "p256b"},
 	{"P-384", "p384", "p384b"},
 	{"P-521", "p521", "p521b"},
+	// large enough for every RSA-PSS variant (SHA-512 with a 64-byte salt needs >= 130 modulus bytes)
+	{"RSA-2048", "rsa2048", "rsa2048b"},
+	{"RSA-3072", "rsa3072", "rsa4096"}, // the subject key of issued certificates is the RSA-4096 fixture
 }
 
 var (
@@ -566,7 +570,7 @@ func main() {
 			nAlt += len(f.alts) - 1
 			perField[f.name] = len(f.alts) - 1
 		}
-		c.Rule(fmt.Sprintf("every certificate template with at most %d of %d fields set to a non-default alternative (%d alternatives in total, full list in coverage.alternatives_per_field) is created by the real CreateCertificate and parsed back; a case is distinct/non-trivial when the template is inside the documented domain and the certificate was created and parsed by zcrypto; plus every exported ExtKeyUsage constant as the only EKU of the default template", d, len(fields), nAlt))
+		c.Rule(fmt.Sprintf("every certificate template with at most %d of %d fields set to a non-default alternative (%d alternatives in total, full list in coverage.alternatives_per_field) is created by the real CreateCertificate and parsed back; PLUS, independent of that bound, the full product signer key kind {Ed25519, RSA-1024, RSA-2048, RSA-3072, P-224, P-256, P-384, P-521} x requested SignatureAlgorithm {0, every constant MD2WithRSA..Ed25519Sig} x {issued by the parsed CA to each of the 8 subject key kinds | self-signed CA certificate} on the default template (every RSA-PSS variant must really be issued by the RSA-2048 and RSA-3072 signers, issued and self-signed); a case is distinct/non-trivial when the template is inside the documented domain and the certificate was created and parsed by zcrypto; plus every exported ExtKeyUsage constant as the only EKU of the default template", d, len(fields), nAlt))
 		c.Assume("expectation function transcribes the documentation of CreateCertificate, Certificate, pkix.Name and RFC 5280 (oracle.go), not buildExtensions",
 			"Go standard library crypto/x509, encoding/asn1, crypto/rsa, crypto/ecdsa, crypto/ed25519 are correct (used as independent parser and verifier)",
 			"fixture keys of internal/fx; CA fixtures are minted with the code under test and verified like every other certificate",
@@ -606,11 +610,140 @@ func main() {
 				c.Sample(map[string]any{"non_default_fields": describe(a), "outcome": r.classes})
 			}
 		})
-		for _, h := range hists {
+		for i, h := range hists {
 			c.Merge(h)
+			hists[i] = ev.Hist{}
 		}
 		if !done {
 			c.Incomplete(fmt.Sprintf("budget hit: only %d of %d templates (d<=%d) were evaluated", c.States.Load(), len(all), d))
+		}
+
+		// supplementary product, independent of d: signer key kind x requested SignatureAlgorithm x
+		// {issued to every subject key kind | self-signed CA}, everything else at its default. The
+		// d-bounded enumeration cannot set SignerKey, SignatureAlgorithm and Issuer together.
+		fieldIdx := func(name string) int {
+			for i, f := range fields {
+				if f.name == name {
+					return i
+				}
+			}
+			c.Broken("no field %q", name)
+			return -1
+		}
+		altIdx := func(f int, label string) int {
+			for i, a := range fields[f].alts {
+				if a.label == label {
+					return i
+				}
+			}
+			c.Broken("field %s has no alternative %q", fields[f].name, label)
+			return -1
+		}
+		fBC, fAlg, fSubj, fSign, fIss := fieldIdx("BasicConstraints"), fieldIdx("SignatureAlgorithm"), fieldIdx("SubjectKey"), fieldIdx("SignerKey"), fieldIdx("Issuer")
+		aCA, aSelf := altIdx(fBC, "valid=true,ca=true,len=-1,zero=false"), altIdx(fIss, "self-signed")
+		var prod []assign
+		for sign := range kinds {
+			for alg := range fields[fAlg].alts {
+				mk := func(subj int, self bool) assign {
+					var a assign
+					put := func(f, alt int) {
+						if alt != 0 {
+							a = append(a, [2]int{f, alt})
+						}
+					}
+					if self {
+						put(fBC, aCA)
+					}
+					put(fAlg, alg)
+					put(fSubj, subj)
+					put(fSign, sign)
+					if self {
+						put(fIss, aSelf)
+					}
+					sort.Slice(a, func(i, j int) bool { return a[i][0] < a[j][0] })
+					return a
+				}
+				for subj := range kinds {
+					prod = append(prod, mk(subj, false))
+				}
+				prod = append(prod, mk(0, true))
+			}
+		}
+		c.Set("key_algorithm_issuer_product_cases", len(prod))
+		issuedAlgs := make([]map[string]bool, len(kinds)) // per signer kind: algorithms actually issued, "self:" prefix for self-signed
+		for i := range issuedAlgs {
+			issuedAlgs[i] = map[string]bool{}
+		}
+		var prodMu sync.Mutex
+		doneP := c.Parallel(len(prod), func(w, i int) {
+			a := prod[i]
+			s := build(a)
+			r := evaluate(s)
+			for _, cl := range r.classes {
+				hists[w]["key x algorithm x issuer product: "+cl]++
+			}
+			c.States.Add(1)
+			c.Evaluations.Add(1)
+			c.Transitions.Add(int64(r.ops))
+			if r.created {
+				c.Distinct.Add(1)
+				if len(r.viol) == 0 {
+					c.Traces.Add(1)
+					lbl := "default"
+					if s.t.SignatureAlgorithm != 0 {
+						lbl = s.t.SignatureAlgorithm.String()
+					}
+					if s.self() {
+						lbl = "self-signed:" + lbl
+					}
+					prodMu.Lock()
+					issuedAlgs[s.signKind][lbl] = true
+					prodMu.Unlock()
+				}
+			}
+			if len(r.viol) > 0 {
+				report(a, r, "", 0)
+			}
+		})
+		hp := ev.Hist{}
+		for _, h := range hists {
+			for k, v := range h {
+				if strings.HasPrefix(k, "key x algorithm x issuer product: ") {
+					hp[k] += v
+				}
+			}
+		}
+		c.Merge(hp)
+		if !doneP {
+			c.Incomplete("budget hit during the key x algorithm x issuer product")
+		}
+		issued := map[string][]string{}
+		for k := range kinds {
+			for l := range issuedAlgs[k] {
+				issued[kinds[k].name] = append(issued[kinds[k].name], l)
+			}
+			sort.Strings(issued[kinds[k].name])
+		}
+		c.Set("algorithms_issued_by_signer_kind", issued)
+		// non-vacuity of the closed gap: every RSA-PSS variant is really issued, issued and self-signed
+		var missing []string
+		for _, l := range []string{"SHA256-RSAPSS", "SHA384-RSAPSS", "SHA512-RSAPSS"} {
+			for _, k := range []string{"RSA-2048", "RSA-3072"} {
+				for _, pre := range []string{"", "self-signed:"} {
+					found := false
+					for _, have := range issued[k] {
+						if have == pre+l {
+							found = true
+						}
+					}
+					if !found {
+						missing = append(missing, k+" "+pre+l)
+					}
+				}
+			}
+		}
+		if len(missing) > 0 && doneP {
+			c.Violation("an in-domain RSA-PSS certificate was not issued and verified by an RSA>=2048 signer (issued and self-signed, SHA-256/384/512)", witness{Detail: "not issued+verified: " + strings.Join(missing, ", ")})
 		}
 
 		// supplementary axis: every exported ExtKeyUsage constant (0 .. ExtKeyUsageAny, iota order)
